@@ -372,8 +372,11 @@ def check_sup(ctx, w):
     ctx.ob('W-SUP', f.construct, 'each link parsed from offset 0 of its own section', ops == want, got=ops, expected=want)
     g = w.model.func(EF, 'ELFFile.get_supplementary_dwarfinfo')
     genv = expr.FEnv(g.node, params=('dwarfinfo',), inline=False)
-    tests = [expr.cond_str(n.test, genv) for n in ast.walk(g.node) if isinstance(n, ast.If)]
-    ctx.ob('W-SUP', g.construct, 'loaded only with a link and a loader', tests == [expr.spec_cond('supfilepath is not None and stream_loader is not None')], got=tests)
+    # decision over the returning paths: something is loaded exactly when there is a link and a loader (one test or a guard clause)
+    rws = expr.return_rows(g.node, genv)
+    truths = [(expr.Facts(c).truth('supfilepath is not None and stream_loader is not None', genv), v) for c, v in rws]
+    ctx.ob('W-SUP', g.construct, 'loaded only with a link and a loader', bool(truths) and all((t is True) == (v != 'None') and t is not None for t, v in truths) and
+           any(v != 'None' for t, v in truths), got=truths)
     ctx.ob('W-SUP', g.construct, 'supplementary DWARF from the loaded file', 'supelffile = ELFFile(stream)' in U(g.node) and 'dwarf_info = supelffile.get_dwarf_info()' in U(g.node))
     h = w.model.func(EF, 'ELFFile.get_dwarf_info')
     ctx.ob('W-SUP', h.construct, 'supplementary info attached to the DWARFInfo', 'dwarfinfo.supplementary_dwarfinfo = self.get_supplementary_dwarfinfo(dwarfinfo)' in U(h.node))
